@@ -57,6 +57,7 @@ Record case := mk_case {
   o_rows : list (list dbval);                  (* row storing record i (by marker); [] = none *)
   o_rowcount : Z;
   o_find : list (list goval); o_xfind : list (list goval); o_first : list (list goval); o_take : list (list goval);
+  o_bykey : list (list goval);                 (* First/Take(&T{own key}) without Where *)
   o_mmap : list (list dbval); o_tmap : list (list dbval);
   o_nmaps : Z;
   o_readerrs : Z
@@ -83,6 +84,7 @@ Definition model_agrees (c : case) : bool :=
          && all2 (rec_eqb fs) (map (read_rec fs) rows) (o_find c)
          && all2 (rec_eqb fs) (map (read_rec fs) rows) (o_first c)
          && all2 (rec_eqb fs) (map (read_rec fs) rows) (o_take c)
+         && all2 (rec_eqb fs) (map (read_rec fs) rows) (o_bykey c)
          && all2 (fun r m => is_nil m || row_eqb r m) rows (o_mmap c)
          && all2 row_eqb rows (o_tmap c)
          && (negb (is_map_op (c_op c)) || (o_nmaps c =? m))
@@ -122,6 +124,8 @@ Definition spec_holds (c : case) : bool :=
     && all2 (fun b f => is_nil b || all3 (fun k x y => goval_eqb (norm k x) (norm k y)) (c_xkinds c) b f) (c_xbefore c) (o_xfind c)
     && all2 (rec_eqb fs) (o_after c) (o_first c)
     && all2 (rec_eqb fs) (o_after c) (o_take c)
+    (* ... and by reloading through the record's own primary key *)
+    && all2 (rec_eqb fs) (o_after c) (o_bykey c)
     (* Create keeps every value the caller set; zero values may take defaults / times / keys *)
     && all2 (fun b a => all3 (fun f x y => is_zero (fd_kind f) x || goval_eqb x y) fs b a) (c_before c) (o_after c)
     (* read back into maps *)
@@ -141,7 +145,7 @@ Definition spec_parts (c : case) : list bool :=
   [ o_err c; all_representable c; (o_readerrs c =? 0); (o_rowcount c =? n);
     all2 (rec_eqb fs) (o_after c) (o_find c) && all2 (fun b f => is_nil b || all3 (fun k x y => goval_eqb (norm k x) (norm k y)) (c_xkinds c) b f) (c_xbefore c) (o_xfind c);
     all2 (rec_eqb fs) (o_after c) (o_first c);
-    all2 (rec_eqb fs) (o_after c) (o_take c);
+    all2 (rec_eqb fs) (o_after c) (o_take c) && all2 (rec_eqb fs) (o_after c) (o_bykey c);
     all2 (fun b a => all3 (fun f x y => is_zero (fd_kind f) x || goval_eqb x y) fs b a) (c_before c) (o_after c);
     all2 (fun a m => is_nil m || all3 (fun f x d => dbval_eqb (proj (fd_kind f) x) d) fs a m) (o_after c) (o_mmap c);
     all2 (fun a m => all3 (fun f x d => dbval_eqb (proj (fd_kind f) x) d) fs a m) (o_after c) (o_tmap c);
